@@ -75,8 +75,11 @@ pub fn span_info(tcx: TyCtxt<'_>, sp: Span) -> (String, usize, bool, String) {
     let sm = tcx.sess.source_map();
     let exp = sp.from_expansion();
     let mname = if exp {
-        let d = sp.ctxt().outer_expn_data();
-        format!("{}", d.kind.descr())
+        // outermost user-visible macro of the backtrace (e.g. `unexpected!` rather than `panic_2021!`)
+        let bt: Vec<String> = sp.macro_backtrace().map(|d| format!("{}", d.kind.descr())).collect();
+        let inner = bt.first().cloned().unwrap_or_default();
+        let outer = bt.last().cloned().unwrap_or_default();
+        if inner == outer { inner } else { format!("{}<{}", outer, inner) }
     } else {
         String::new()
     };
